@@ -6,6 +6,7 @@ import LW.Driver.Common
 import LW.Model.Circuit
 import LW.Model.Rewrite
 import LW.Model.CircuitSpec
+import LW.Model.Optic
 
 open Lean
 
@@ -121,20 +122,119 @@ def observeAll (pool : Pool) (ids : List String) : R Json := do
     | none => pure (id, Json.null)
   return Json.mkObj obs
 
+abbrev OPool := List (String × Option (Optic GQ))
+
+def OPool.get (p : OPool) (k : String) : Option (Optic GQ) :=
+  match p.find? (·.1 == k) with
+  | some x => x.2
+  | none => none
+
+def OPool.set (p : OPool) (k : String) (c : Option (Optic GQ)) : OPool :=
+  if p.any (·.1 == k) then p.map fun x => if x.1 == k then (k, c) else x else p ++ [(k, c)]
+
+def closedJ (c : Closed GQ) : Json :=
+  Json.mkObj [("q", natJ c.q), ("hn", listJ natJ c.hn), ("l", natJ c.l), ("W", matJ c.W)]
+
+/-- the same op on the specification level (`Optic`); `none` = not expressible (e.g. after
+`unpack_groups` on a circuit with ancillas) -/
+def opticStep (pool : OPool) (op : Json) : R (OPool × String) := do
+  let a ← asList op
+  let name ← match a with
+    | h :: _ => asStr h
+    | [] => .error "empty op"
+  let arg (k : Nat) : R Json := match a[k]? with
+    | some v => .ok v
+    | none => .error s!"op {name}: missing arg {k}"
+  let upd (id : String) (r : Option (Except Err (Optic GQ))) : R (OPool × String) :=
+    match r with
+    | some (.ok c) => .ok (pool.set id (some c), "ok")
+    | some (.error e) => .ok (pool, e.toString)
+    | none => .ok (pool.set id none, "n/a")
+  let call (id : String) (f : Circ GQ → Except Err (Circ GQ)) : R (OPool × String) :=
+    upd id ((pool.get id).map fun x => x.applyCall GQ.I f)
+  match name with
+  | "new" => do
+      let id ← asStr (← arg 1); let n ← asNat (← arg 2)
+      return (pool.set id (some (Optic.new n)), "ok")
+  | "unitary" => do
+      let id ← asStr (← arg 1); let u ← asMat (← arg 2)
+      return (pool.set id (some (Optic.ofUnitary u)), "ok")
+  | "bs" => do
+      let id ← asStr (← arg 1)
+      let m1 ← asInt (← arg 2); let m2 ← asInt (← arg 3)
+      let cc ← asGQ (← arg 4); let ss ← asGQ (← arg 5); let cv ← asConv (← arg 6)
+      let l ← asOpt asGQPair (← arg 7)
+      let rv ← asBool (← arg 8); let lv ← asBool (← arg 9)
+      call id fun c => c.bs m1 m2 (cc, ss) cv l rv lv
+  | "ps" => do
+      let id ← asStr (← arg 1)
+      let m ← asInt (← arg 2); let p ← asGQ (← arg 3)
+      let l ← asOpt asGQPair (← arg 4); let lv ← asBool (← arg 5)
+      call id fun c => c.ps m p l lv
+  | "loss" => do
+      let id ← asStr (← arg 1)
+      let m ← asInt (← arg 2); let x ← asGQ (← arg 3); let y ← asGQ (← arg 4)
+      let lv ← asBool (← arg 5)
+      call id fun c => c.loss m (x, y) lv
+  | "barrier" => do
+      let id ← asStr (← arg 1)
+      let ms ← asOpt (asListOf asInt) (← arg 2)
+      call id fun c => c.barrier ms
+  | "swaps" => do
+      let id ← asStr (← arg 1)
+      let sw ← asListOf (asPair asInt asInt) (← arg 2)
+      call id fun c => c.modeSwaps sw
+  | "herald" => do
+      let id ← asStr (← arg 1)
+      let n ← asNat (← arg 2); let i ← asInt (← arg 3); let o ← asInt (← arg 4)
+      upd id ((pool.get id).map fun x => x.herald n i o)
+  | "add" => do
+      let id ← asStr (← arg 1)
+      let sid ← asStr (← arg 2)
+      let m ← asInt (← arg 3)
+      upd id (do let x ← pool.get id; let s ← pool.get sid; pure (x.add s m))
+  | "plus" => do
+      let id ← asStr (← arg 1)
+      let ia ← asStr (← arg 2); let ib ← asStr (← arg 3)
+      upd id (do let x ← pool.get ia; let y ← pool.get ib; pure (x.plus y))
+  | "copy" => do
+      let id ← asStr (← arg 1); let src ← asStr (← arg 2)
+      return (pool.set id (pool.get src), "ok")
+  | "unpack" => do
+      let id ← asStr (← arg 1)
+      -- unpacking exposes ancilla positions, which the specification deliberately forgets
+      match pool.get id with
+      | some x => if x.a == 0 then return (pool, "ok") else return (pool.set id none, "n/a")
+      | none => return (pool, "n/a")
+  | "compress" | "nonadj" => return (pool, "ok")
+  | s => .error s!"unknown circuit op {s}"
+
 /-- request: `{"op":"circ","prog":[...],"observe":[ids],"each":bool}` -/
 def handleCirc (req : Json) : R Json := do
   let prog ← asList (← fld req "prog")
   let ids ← asListOf asStr (← fld req "observe")
   let each := (req.getObjValD "each") == Json.bool true
   let mut pool : Pool := []
+  let withOptic := (req.getObjValD "optic") == Json.bool true
+  let mut opool : OPool := []
+  let mut oouts : Array Json := #[]
   let mut outs : Array Json := #[]
   let mut snaps : Array Json := #[]
   for op in prog do
     let (p', r) ← circStep pool op
     pool := p'
     outs := outs.push (Json.str r)
+    if withOptic then
+      let (op', r') ← opticStep opool op
+      opool := op'
+      oouts := oouts.push (Json.str r')
     if each then snaps := snaps.push (← observeAll pool ids)
   let final ← observeAll pool ids
-  return Json.mkObj [("results", Json.arr outs), ("final", final), ("snaps", Json.arr snaps)]
+  let closed := Json.mkObj (ids.map fun id =>
+    (id, match opool.get id with
+         | some x => closedJ x.closed
+         | none => Json.null))
+  return Json.mkObj [("results", Json.arr outs), ("final", final), ("snaps", Json.arr snaps),
+    ("optic_results", Json.arr oouts), ("optic_closed", closed)]
 
 end LW.Driver
